@@ -10,7 +10,9 @@ of `StorageResolver::get` (file.rs:309-348) and `SyncCache::get` (globalcache sy
 Rust                                                           → here
 ------------------------------------------------------------------------------------------------------
 entry of `get` (hook `Enter`)                                  → `Ctl.enter T r k`
-  `chain.lock()`, `contains`, `push`  (file.rs:313-320)          step `enter`: error "Recursive reference" | push
+  `chain.lock()`, `contains`, `len() >= MAX_NESTED_GETS`,
+  `push`  (file.rs)                                              step `enter`: error "Recursive reference" |
+                                                                 error "nested too deeply" | push
 after the push (hook `AfterPush`), before `get_or_compute`     → `Ctl.pushed T r k`
   `SyncCache::get`: `inner.lock()`, `entries.entry(key)`         step `pushed`:
      `Computed(v)` → clone                                          hit  → `afterLookup` (downcast / fallback)
@@ -148,9 +150,11 @@ def stepT (d : Doc V E) (cfg : Cfg) (i : Nat) (sh : Shared V E) (t : Thread V E)
     if cfg.sharedGuard then
       if sh.poisoned then some (sh, { t with ctl := .panicked })
       else if r ∈ sh.chain then some (runTo d cfg sh t (k (.err d.recErr)))
+      else if maxNestedGets ≤ sh.chain.length then some (runTo d cfg sh t (k (.err d.recErr)))
       else some ({ sh with chain := r :: sh.chain }, { t with ctl := .pushed T r k })
     else
       if r ∈ t.chain then some (runTo d cfg sh t (k (.err d.recErr)))
+      else if maxNestedGets ≤ t.chain.length then some (runTo d cfg sh t (k (.err d.recErr)))
       else some (sh, { t with ctl := .pushed T r k, chain := r :: t.chain })
   | .pushed T r k =>
     if cfg.objCache then
